@@ -15,10 +15,16 @@ def random_history(rng, length):
         k = rng.random()
         if k < 0.45:
             ops.append(('img', rng.choice(xs)))
-        elif k < 0.65:
-            ops.append(('inv', [a + (b - a) * rng.random() for a, b in zip(*cur)]))
         elif k < 0.8:
-            ops.append(('pre', [a + (b - a) * rng.random() for a, b in zip(*cur)]))
+            dt = rng.choice(['float64', 'float64', 'float64', 'list', 'int', 'float32'])
+            y = [a + (b - a) * rng.random() for a, b in zip(*cur)]
+            if dt == 'int':
+                y = [float(rng.randint(int(a) + 1, max(int(a) + 1, int(b)))) for a, b in zip(*cur)]
+            if dt == 'float32':
+                y = [a + (b - a) * rng.randrange(0, 1025) / 1024.0 for a, b in zip(*cur)] if all(float(a).is_integer() and float(b).is_integer() for a, b in zip(*cur)) else None
+            if y is None:
+                dt = 'float64'; y = [a + (b - a) * rng.random() for a, b in zip(*cur)]
+            ops.append((rng.choice(['inv', 'pre']), y, dt))
         else:
             cur = H.random_box(rng, n, nice=rng.random() < 0.4)
             ops.append(('bounds', cur[0], cur[1]))
